@@ -7,6 +7,7 @@ import (
 	"fmt"
 	"strconv"
 	"strings"
+	"time"
 
 	ds "github.com/ipfs/go-datastore"
 	logging "github.com/ipfs/go-log/v2"
@@ -227,6 +228,109 @@ func (s *scen) call(n *node, max uint64, echo *[][]byte, badID bool) (r *callRes
 	return r
 }
 
+// The monitors identify a DA transaction by its POSITION (height, index), never by its bytes or its id: "each exactly
+// once" is a statement about DA entries, and two byte-identical entries of one height are two transactions. With
+// content-derived ids (ids=content) identical entries share an id, so what the sequencer shows (ids of the answer, of the
+// persisted queue) is translated to positions by multiplicity before the monitors see it: the sequencer consumes a height
+// in order, so the n-th occurrence of an id that is still outstanding (neither delivered nor known lost) stands for the
+// n-th outstanding position carrying that id; an occurrence beyond the outstanding positions is mapped to the last
+// position (and is then reported as a second release). Observation lines keep the real ids.
+type posMap struct {
+	s    *scen
+	used map[string]int
+}
+
+func (s *scen) newPosMap(skip map[string]int) *posMap {
+	u := map[string]int{}
+	for k, v := range skip {
+		u[k] = v
+	}
+	return &posMap{s: s, used: u}
+}
+
+func (p *posMap) id(id []byte) []byte {
+	h, pos := p.s.da.positionsOf(id)
+	if len(pos) == 0 {
+		return id
+	}
+	var free []int
+	for _, i := range pos {
+		y := string(mkID(h, i))
+		if _, rel := p.s.m.released[y]; !rel && !p.s.m.flagged[y] {
+			free = append(free, i)
+		}
+	}
+	n := p.used[string(id)]
+	p.used[string(id)] = n + 1
+	if n < len(free) {
+		return mkID(h, free[n])
+	}
+	return mkID(h, pos[len(pos)-1])
+}
+
+func (p *posMap) queue(q []entry) []entry {
+	out := make([]entry, len(q))
+	for i, e := range q {
+		out[i].ts = e.ts
+		for _, it := range e.items {
+			out[i].items = append(out[i].items, item{it.tx, p.id(it.id)})
+		}
+	}
+	return out
+}
+
+func (s *scen) positional(r *callRes) *callRes {
+	if !s.da.contentIDs {
+		return r
+	}
+	t := *r
+	t.qBefore = s.newPosMap(nil).queue(r.qBefore)
+	pm := s.newPosMap(nil)
+	t.ids = make([][]byte, len(r.ids))
+	for i, id := range r.ids {
+		t.ids[i] = pm.id(id)
+	}
+	t.qAfter = pm.queue(r.qAfter) // what is still queued comes after what was released
+	return &t
+}
+
+func (s *scen) positionalQueue(q []entry) []entry {
+	if !s.da.contentIDs {
+		return q
+	}
+	return s.newPosMap(nil).queue(q)
+}
+
+// positionalImage: the durable image with the ids of the persisted queue translated (crash points).
+func (s *scen) positionalImage(img map[string][]byte) map[string][]byte {
+	if !s.da.contentIDs {
+		return img
+	}
+	q, present := readQueue(img)
+	if !present {
+		return img
+	}
+	q = s.positionalQueue(q)
+	l := make([]based.TxsWithTimestamp, len(q))
+	for i, e := range q {
+		l[i].Timestamp = time.Unix(e.ts, 0)
+		for _, it := range e.items {
+			l[i].Txs = append(l[i].Txs, it.tx)
+			l[i].IDs = append(l[i].IDs, it.id)
+		}
+	}
+	raw, err := json.Marshal(l)
+	if err != nil {
+		return img
+	}
+	out := map[string][]byte{}
+	for k, v := range img {
+		out[k] = v
+	}
+	out[keyPending] = raw
+	return out
+}
+
 func (r *callRes) tail() string {
 	return fmt.Sprintf("pos=%s q=%s", showPos(r.posAfter), showQ(r.qAfter, r.qAfterPresent))
 }
@@ -241,7 +345,7 @@ func (s *scen) both(c *hx.Ctx, max uint64, echo *[][]byte, badID bool) *callRes 
 	served := ra.served
 	rb := s.call(s.b, max, echo, badID)
 	ra.served = served
-	s.m.afterCall(c, s, ra, echo == nil && !badID)
+	s.m.afterCall(c, s, s.positional(ra), echo == nil && !badID)
 	if ra.kind == "panic" || rb.kind == "panic" {
 		c.Report("C20/panic/get-next-batch", "GetNextBatch panicked")
 	}
@@ -257,13 +361,14 @@ func run(c *hx.Ctx) {
 		c.St.Findings = []hx.Finding{} // keep the stats JSON a list for ./check --replay
 	}
 	var s *scen
-	fresh := func(start, drift uint64, contract bool) {
+	fresh := func(start, drift uint64, contract bool, contentIDs bool) {
 		d := newDA()
+		d.contentIDs = contentIDs
 		a, _ := newNode(d, start, drift, nil)
 		b, _ := newNode(d, start, drift, nil)
 		s = &scen{start: start, drift: drift, da: d, a: a, b: b, m: newMonitor(contract)}
 	}
-	fresh(0, 0, true)
+	fresh(0, 0, true, false)
 	for {
 		op, ok := c.Next()
 		if !ok {
@@ -274,7 +379,7 @@ func run(c *hx.Ctx) {
 		case "reset":
 			st, _ := op.U64("start")
 			dr, _ := op.U64("drift")
-			fresh(st, dr, !op.Has("contract") || op.Bool("contract"))
+			fresh(st, dr, !op.Has("contract") || op.Bool("contract"), op.Str("ids") == "content")
 			c.Emit("ok")
 		case "put":
 			h, ok1 := op.U64("h")
@@ -389,7 +494,7 @@ func run(c *hx.Ctx) {
 			if r.kind == "panic" {
 				c.Report("C20/panic/get-next-batch", "GetNextBatch panicked")
 			}
-			s.m.afterCrash(c, s, r, k, names, img, echo == nil && !badID)
+			s.m.afterCrash(c, s, s.positional(r), k, names, s.positionalImage(img), echo == nil && !badID)
 			c.Hit(fmt.Sprintf("crash:at-%d-of-%d", k, r.nw))
 			und := r.kind
 			if r.kind == "batch" {
@@ -425,7 +530,7 @@ func run(c *hx.Ctx) {
 			}
 			img := s.a.ds.Image()
 			q, present := readQueue(img)
-			s.m.atEnd(c, s, max, k, readPos(img), q)
+			s.m.atEnd(c, s, max, k, readPos(img), s.positionalQueue(q))
 			c.Emit("n=%d rel=%s pos=%s q=%s", k, hx.HexList(all), showPos(readPos(img)), showQ(q, present))
 		default:
 			c.Emit("bad-op")
